@@ -98,6 +98,8 @@ func exec(op string) (res string) {
 		c := parseRkn(w)
 		c.pl = pl
 		return c.run()
+	case "rkq":
+		return parseRkq(w).run()
 	case "rksz", "rkszx":
 		return execRksz(w)
 	case "rkc", "rkcx":
@@ -754,6 +756,12 @@ func main() {
 	}
 	for i := 0; i < szn; i++ {
 		op, cls := genRksz(r)
+		out.Case(op, exec(op), cls, true)
+	}
+	// concurrent first uses of one statement: conducted schedules of the inflight wait (rkq.go)
+	for i := 0; i < 150*mult; i++ {
+		c, cls := genRkq(r, g)
+		op := c.op()
 		out.Case(op, exec(op), cls, true)
 	}
 	// the routing-key info cache over histories of one session (rkc.go)
